@@ -75,10 +75,10 @@ ADDED = {
  "C01": "Also: symbol names with spaces and indented blank separators (ids up to 18 digits and one-digit minutes were in the generator from the start). One dump in 2000 has up to 4000 goroutines.",
  "C03": "Also: generated file-system layouts (incl. paths that are a detected root plus a short remainder) through scan/guess/analyse/aggregate/render; pp on reports whose stacks lie in one location class; every number of a real traceback (sources present) replaced by every boundary value of a decimal parser. ",
  "C04": "Also: a struct copy of the snapshot with another goroutine list and the snapshot after a goroutine was removed (each aggregation answers for the goroutines held at that moment), the empty snapshot, snapshots whose crashing goroutine is not element 0, race-style snapshots with descending ids.",
- "C05": "Also: resolved snapshots, same frame under another root, multi-call creator stacks, non-pointer siblings of pointers, '?' and '_' twins. A third state that differs by the runtime's parenthesised qualifier, aggregates with an inner elision, files and function names differing by letter case only.",
+ "C05": "Also: resolved snapshots, same frame under another root, multi-call creator stacks, non-pointer siblings of pointers, '?' and '_' twins. A third state that differs by the runtime's parenthesised qualifier, aggregates with an inner elision, files and function names differing by letter case only. go1.21-style creators (one function, two parents, two lines); parsed dumps with an accuracy twin.",
  "C06": "Also: packages present in two GOPATHs; history phases - a snapshot rendered / a dump scanned after another one that names the same files resolves like the same one alone (fresh names per trial, mapped back).",
  "C07": "Also: the pp binary on multi-dump streams; stray carriage returns as junk and as the line that ends a dump. Indented race-header pairs and ANSI colour sequences in junk.",
- "C10": "Also: real tracebacks of generated programs with their sources on disk cut at every offset (path guessing and source analysis on); a persistent failure that calls itself temporary as a fourth way of signalling.",
+ "C10": "Also: real tracebacks of generated programs with their sources on disk cut at every offset (path guessing and source analysis on); a persistent failure that calls itself temporary as a fourth way of signalling, a one-shot failure after which the source goes on as a fifth; cuts inside lines longer than the 16 KiB line buffer.",
  "C11": "Also: a quarter of the end-to-end sessions feed pp through a named pipe given as its file argument; a second dump glued to the first without an empty line. Indented dumps followed by a less indented line.",
  "C12": "Also: derived fields (location class, local/relative path, import path) of a bucket frame are those of a member; typed argument strings are displayed only when every member has exactly these. Four sleep values of one signature in every arrival order.",
  "C13": "Also: arrival-order independence of the presented order (10 arrival orders of buckets that tie under the signature comparison, two modes), stacks of 255..70000 frames of one class, the class-ranking law with equal package-main counts. Pairwise-relation phase: two buckets alone in both arrival orders tell tied/strict; 'tied' must be transitive and larger aggregations must respect the strict pairs.",
@@ -87,7 +87,7 @@ ADDED = {
  "C16": "Also: buckets of 11/1/1 goroutines with expressions anchored at both ends. Long /vN module names, per cent signs in paths.",
  "C17": "Also: module-cache case encoding, version-shaped payloads, method-symbol fragments, paths without a directory part, stacks of 99..168 frames.",
  "C18": "Also: absent/present siblings, shadow files at shorter tails, roots containing src or pkg/mod components or no leading slash, two remote roots for one GOPATH, go-test mains under detected roots and as sole witness, neighbours of one directory with different per-file answers, snapshots handed out with an error. Package main at a module root, floods of absent foreign files sorting first.",
- "C19": "Also: programs spread over two files, deferred calls (frames on the closing brace), recursive calls, directional channels, lengths above the pointer floor. Block placement over two files with a second-file mismatch, parameters straddling the 10 printed words, short programs whose every word fits in 32 bits.",
+ "C19": "Also: programs spread over two files, deferred calls (frames on the closing brace), recursive calls, directional channels, lengths above the pointer floor. Block placement over two files with a second-file mismatch, parameters straddling the 10 printed words, short programs whose every word fits in 32 bits. Local sources with CRLF line endings.",
  "C20": "Also: before each request a marker goroutine is parked - the page must account for every marker that existed before the request was issued; maxmem values below the documented minimum; requests have a watchdog whose firing is classified by what the handler goroutine is doing (parked inside the library = violation handler-blocked, still running = inconclusive).",
 }
 NOT_YET = {}
@@ -125,7 +125,7 @@ def main():
                      "kind_free_text": "Go harness linked against the real panicparse packages (build tag verif) plus the real pp binary driven through pipes; generators model the producers of the text, monitors are oracles over observed executions"}],
         "checks": checks,
         "not_applicable": na,
-        "notes": "Runtime monitoring only. Validation: mutants/ (62 hand-written mutants, tools/run_mutants.py) and seeded/ (272 changes by independent sub-agents, tools/run_seeded.py), see DESIGN.md 9.5; tools/coverage.sh is the reach analysis. ./check <ID> <quick|thorough> rebuilds harness and pp from /repo's working tree on every call. Exit 0 held / 1 VIOLATION / 2 BROKEN-CHECK. KNOWN_FINDINGS.txt lists known findings and fix commits.",
+        "notes": "Runtime monitoring only. Validation: mutants/ (62 hand-written mutants, tools/run_mutants.py) and seeded/ (279 changes by independent sub-agents, tools/run_seeded.py), see DESIGN.md 9.5; tools/coverage.sh is the reach analysis. ./check <ID> <quick|thorough> rebuilds harness and pp from /repo's working tree on every call. Exit 0 held / 1 VIOLATION / 2 BROKEN-CHECK. KNOWN_FINDINGS.txt lists known findings and fix commits.",
     }
     json.dump(m, open(os.path.join(ROOT, "MANIFEST.json"), "w"), indent=1)
     print("wrote MANIFEST.json: %d checks, %d not_applicable" % (len(checks), len(na)))
